@@ -119,7 +119,7 @@ def run_all(pipe, reqs, tag, n=48, op='trace'):
 
 
 # ---- stages (one bias application each) -----------------------------------------------------------
-SCOLS = ['stage', 'inv', 'frame', 'C09later', 'C15', 'C16', 'C17', 'C18', 'C19', 'reported']
+SCOLS = ['stage', 'inv', 'frame', 'C09later', 'C15', 'C16', 'C17', 'C18', 'C19', 'reported', 'faithful']
 
 
 def enabled_biases(req):
